@@ -1,6 +1,7 @@
 import PhysisModel.Proofs.Sha1Pad
 import PhysisModel.Proofs.Fiin
 import PhysisModel.Proofs.PatchList
+import PhysisModel.Proofs.BinrwTieFiin
 /-!
 # C10 — file-info tables and patch lists are produced and parsed faithfully
 
@@ -148,5 +149,30 @@ example : Spec.PatchList.WF .game
 example : Spec.PatchList.WF .boot
     ⟨[], 0, [], [], [⟨[0x75], [0x76], 0, 22221335, 69674819, [], 19, 18⟩]⟩ = true := by
   decide
+
+end Physis.C10
+
+/-! ### T4: binrw declarations regenerated from the source
+
+`Generated/BinrwFiin.lean` is re-translated from the `#[binrw]` declarations of `src/fiin.rs` on every
+run (`lib/binrw2lean.py`); the hand-written readers of `Model/Fiin.lean` are `Layout.read` of the
+regenerated descriptors followed by a pure projection (`Proofs/BinrwTieFiin.lean`), for all inputs. -/
+namespace Physis.C10
+open Physis.Binrw Physis.Generated
+
+/-- `FIINEntry::read` = the regenerated layout (i32, pad 4, 64 bytes, 24 bytes) + the `map` closure -/
+theorem c10_binrw_FIINEntry (bs : Bytes) :
+    Physis.Fiin.readEntry bs =
+      BinrwTie.Fiin.toRes (via BinrwTie.Fiin.entryOf (Layout.read BinrwTie.Fiin.endian BinrwFiin.fIINEntry bs)) :=
+  BinrwTie.Fiin.readEntry_eq_generated bs
+
+/-- `FileInfo::read` = the regenerated prefix (magic, little endian, pad 16, two i32) followed by
+`pad_before = 992` and `entries_size / 96` entries (`BinrwTie.Fiin.rest`) -/
+theorem c10_binrw_FileInfo (buffer : Bytes) :
+    Physis.Fiin.parse buffer =
+      match Layout.read .little BinrwFiin.fileInfo buffer with
+      | some x => BinrwTie.Fiin.rest x
+      | none => .none :=
+  BinrwTie.Fiin.parse_eq_generated buffer
 
 end Physis.C10
